@@ -65,8 +65,33 @@ def _case(draw):
     nlinks = 0
     if not longn and not vsep and draw(st.booleans()):
         nlinks = _add_link_files(draw, site)
+    if not longn and not vsep and draw(st.integers(0, 2)) == 0:
+        _add_cap_furniture(draw, site)
     return {"full": full, "gopher_ok": gopher_ok, "vsep": vsep, "site": site, "long": longn, "linkfiles": nlinks,
             "cache": draw(st.booleans()), "forms": draw(st.integers(0, len(CRAWL_FORMS) - 1))}
+
+
+def _add_cap_furniture(draw, site):
+    """'.cap' directories as people really have them: a caption file for one entry, a SUB-DIRECTORY named like another entry
+    (captions of that directory's own files, as gopherd's .cap trees were laid out), a stray empty file."""
+    import re
+
+    def walk(items, depth):
+        names = [n for n, it in items if it["kind"] in ("txt", "html", "bin", "dir") and not re.search(r"[\t\r\n/]", n)]
+        dirs = [n for n, it in items if it["kind"] == "dir" and not re.search(r"[\t\r\n/]", n)]
+        if names and not any(n == ".cap" for n, _ in items) and draw(st.integers(0, 1)) == 0:
+            entries = []
+            if dirs:
+                d = draw(st.sampled_from(dirs))
+                entries.append([".cap/" + d + "/intro.txt", "f", "Name=Introduction\n"])
+            f = draw(st.sampled_from(names))
+            if not any(e[0].startswith(".cap/" + f + "/") or e[0] == ".cap/" + f for e in entries):
+                entries.append([".cap/" + f, "f", draw(st.sampled_from(["Name=Captioned\n", "", "Numb=2\n"]))])
+            items.append([".capfurniture", {"kind": "spec", "entries": entries}])
+        for n, it in items:
+            if it["kind"] == "dir" and depth < 2:
+                walk(it["items"], depth + 1)
+    walk(site, 0)
 
 
 def _add_link_files(draw, site):
